@@ -6,6 +6,7 @@ import (
 	mathrand "math/rand"
 	"net/http"
 	"strconv"
+	"strings"
 	"sync"
 	"testing/synctest"
 	"time"
@@ -38,8 +39,9 @@ import (
 // ---- leases with optimistic concurrency and per-node reachability ---------
 
 type leaseStore struct {
-	mu     sync.Mutex
-	shared *kubefake.Clientset
+	mu        sync.Mutex
+	shared    *kubefake.Clientset
+	lastRenew map[string]time.Time // node|lease name -> last write naming the node as holder
 }
 
 type nodeKube struct {
@@ -100,7 +102,11 @@ func (l *nodeLeases) Create(ctx context.Context, lease *coordinationv1.Lease, op
 	defer l.k.ls.mu.Unlock()
 	c := lease.DeepCopy()
 	c.ResourceVersion = "1"
-	return l.LeaseInterface.Create(ctx, c, opts)
+	out, err := l.LeaseInterface.Create(ctx, c, opts)
+	if err == nil {
+		l.k.ls.wrote(l.k.node, out)
+	}
+	return out, err
 }
 
 func (l *nodeLeases) Update(ctx context.Context, lease *coordinationv1.Lease, opts metav1.UpdateOptions) (*coordinationv1.Lease, error) {
@@ -119,8 +125,39 @@ func (l *nodeLeases) Update(ctx context.Context, lease *coordinationv1.Lease, op
 	c := lease.DeepCopy()
 	rv, _ := strconv.Atoi(cur.ResourceVersion)
 	c.ResourceVersion = strconv.Itoa(rv + 1)
-	return l.LeaseInterface.Update(ctx, c, opts)
+	out, err := l.LeaseInterface.Update(ctx, c, opts)
+	if err == nil {
+		l.k.ls.wrote(l.k.node, out)
+	}
+	return out, err
 }
+
+// wrote remembers when a node last wrote a lease naming itself as the holder
+// (ls.mu is held): the ground truth of "this replica's elector renewed".
+func (ls *leaseStore) wrote(node string, l *coordinationv1.Lease) {
+	if l.Spec.HolderIdentity == nil || !strings.Contains(*l.Spec.HolderIdentity, node) {
+		return
+	}
+	if ls.lastRenew == nil {
+		ls.lastRenew = map[string]time.Time{}
+	}
+	ls.lastRenew[node+"|"+l.Name] = time.Now()
+}
+
+// LastRenewal: when replica rp last renewed (or acquired) the shard's lease at
+// the API server.
+func (w *World) LastRenewal(rp *Replica, shard int) (time.Time, bool) {
+	w.leases.mu.Lock()
+	defer w.leases.mu.Unlock()
+	t, ok := w.leases.lastRenew[fmt.Sprintf("%s|kube-gateway-ratelimiter-%d", rp.Name, shard)]
+	return t, ok
+}
+
+// Election timing of this world = the shipped defaults of kube-ratelimiter.
+const (
+	LeaseDuration = 3000 * time.Millisecond
+	RetryPeriod   = 900 * time.Millisecond
+)
 
 // ---- the world ---------------------------------------------------------------
 
@@ -228,9 +265,9 @@ func (w *World) StartReplica(i int) {
 			ResourceLock:      "leases",
 			ResourceName:      "kube-gateway-ratelimiter",
 			ResourceNamespace: "kube-gateway",
-			LeaseDuration:     metav1.Duration{Duration: 3000 * time.Millisecond},
+			LeaseDuration:     metav1.Duration{Duration: LeaseDuration},
 			RenewDeadline:     metav1.Duration{Duration: w.RenewDeadline},
-			RetryPeriod:       metav1.Duration{Duration: 900 * time.Millisecond},
+			RetryPeriod:       metav1.Duration{Duration: RetryPeriod},
 		},
 	}
 	rl, err := limiter.NewRateLimiter(gwClient, kube, opts)
@@ -290,6 +327,16 @@ func (w *World) LeadersOf(shard int) []*Replica {
 		}
 	}
 	return out
+}
+
+// LeaseOf reads the shard's lease as the API server has it: the ground truth of
+// leadership, independent of what any replica believes.
+func (w *World) LeaseOf(shard int) (holder string, renewed time.Time, ok bool) {
+	l, err := w.leases.shared.CoordinationV1().Leases("kube-gateway").Get(context.Background(), fmt.Sprintf("kube-gateway-ratelimiter-%d", shard), metav1.GetOptions{})
+	if err != nil || l.Spec.HolderIdentity == nil || l.Spec.RenewTime == nil {
+		return "", time.Time{}, false
+	}
+	return *l.Spec.HolderIdentity, l.Spec.RenewTime.Time, true
 }
 
 // PutCluster creates or updates an UpstreamCluster object for the limiter's informers.
